@@ -112,7 +112,8 @@ type inst struct {
 }
 
 type rootInfo struct {
-	hash []byte
+	hash   []byte
+	shadow *sn // evidence only (shape=1): which rebalancing cases were reached
 }
 
 type drv struct {
@@ -573,12 +574,24 @@ func (d *drv) Apply(s core.Step) (any, any, error) {
 			ret = map[string]any{"collision": map[string]any{"id": id, "other": coll, "hash": hs}}
 			break
 		}
-		d.ids[id] = &rootInfo{hash: hash}
+		ri := &rootInfo{hash: hash}
+		d.ids[id] = ri
 		if d.env.Opt("shape", "") == "1" {
-			if h, n, st := d.insts[0].be.Shape(hash); st == "ok" && s.Op() == "Set" {
-				stat(fmt.Sprintf("shape_h%d_n%d", h, n), 1)
+			cases := map[string]int{}
+			sh := pi.shadow
+			for _, kv := range kvs {
+				sh, _ = shadowSet(sh, kv.K, cases)
+			}
+			ri.shadow = sh
+			for k, n := range cases {
+				stat(k, n)
+			}
+			if h, n, st := d.insts[0].be.Shape(hash); st == "ok" && sh != nil {
 				statMax("max_tree_height", h)
 				statMax("max_tree_size", n)
+				if h != sh.h || n != sh.n {
+					stat("shadow_shape_differs", 1)
+				}
 			}
 		}
 		ret = id
@@ -659,6 +672,11 @@ func (d *drv) Apply(s core.Step) (any, any, error) {
 		ret = merge(obs)
 	default:
 		return nil, nil, fmt.Errorf("unknown op %q", s.Op())
+	}
+	// a reply that already disagrees is reported as such; the projection is only meaningful (and only
+	// well-defined: a refused update creates no root to read) when the reply agrees
+	if exp, ok := s["ret"]; ok && !core.Match(exp, core.Norm(ret)) {
+		return ret, nil, nil
 	}
 	chk, err := d.project(s)
 	if err != nil {
